@@ -46,6 +46,50 @@ Section Domain.
           end
       end.
 
+  (* ---- why an atom is outside: the number n of the known divergence class F-C16-n, 0 inside.
+     Pep508Domain_proofs.dom_atom_class: dom_atom a = (atom_class a =? 0). The harness takes
+     the class of a disagreement from this function (extracted), not from a copy of it. *)
+  Definition env_atom_class (v : var) (o : cop) (lhs rhs : bytes) : N :=
+    let both := go_valid lhs && go_valid rhs in
+    let sp := is_some (spec_sat (cop_num o) rhs lhs) in
+    if version_typed v then
+      match o with
+      | CIn | CNotIn => if both then 1 else 0            (* word operator on two versions *)
+      | CEq3 => 5                                        (* arbitrary equality *)
+      | CEq | CNe | CTilde => if (both && sp) || (negb both && negb sp) then 0 else 6
+      | CLe | CLt | CGe | CGt => if both && sp then 0 else if both then 6 else 4
+      end
+    else
+      match o with
+      | CEq | CNe | CIn | CNotIn | CTilde => if both then 6 else 0
+      | CEq3 => 5
+      | CLe | CLt | CGe | CGt => 4                       (* ordered comparison of plain strings *)
+      end.
+
+  Definition atom_class (a : atom) : N :=
+    let v := atom_var a in
+    let s := l_text (atom_lit a) in
+    if is_extra v then
+      match atom_op a with
+      | CEq => if negb (is_nil s) && bytes_eqb (canonicalize_name s) s then 0 else 3   (* name not normalised *)
+      | _ => 2                                                                         (* extra with another operator *)
+      end
+    else
+      match env_lookup (var_name v) env with
+      | None => 6
+      | Some x =>
+          match a with
+          | AVarLit _ o _ => env_atom_class v o x s
+          | ALitVar _ o _ => env_atom_class v o s x
+          end
+      end.
+
+  Fixpoint first_class (l : list atom) : N :=
+    match l with
+    | [] => 0
+    | a :: r => if atom_class a =? 0 then first_class r else atom_class a
+    end.
+
   Definition extra_lits (m : mtree) : list bytes :=
     map (fun a => l_text (atom_lit a)) (filter (fun a => is_extra (atom_var a)) (atoms m)).
 
@@ -57,4 +101,13 @@ Section Domain.
     forallb dom_atom (atoms m) &&
     all_same (extra_lits m) &&
     forallb (fun e => bytes_eqb (canonicalize_name e) e) extras.
+
+  (* the class of the first atom outside, else 3 when a requested extra is not a normalised
+     name, else 7 when the marker compares extra with two different names, else 0 *)
+  Definition domain_class (extras : list bytes) (m : mtree) : N :=
+    let c := first_class (atoms m) in
+    if negb (c =? 0) then c
+    else if negb (forallb (fun e => bytes_eqb (canonicalize_name e) e) extras) then 3
+    else if negb (all_same (extra_lits m)) then 7
+    else 0.
 End Domain.
